@@ -305,6 +305,39 @@ func matchPath(t *tables, node string, root []*pev, gp *gPath) *matchResult {
 		pevs = append(pevs, e)
 		pidx = append(pidx, i)
 	}
+	// ECMAScript: a single comma between the last element of a list and its closing bracket (ArrayLiteral, Arguments,
+	// FormalParameters, ObjectLiteral) denotes nothing — a parser may accept it and the printer leave it out. (A comma
+	// behind another comma or behind the opening bracket is an elision, which does denote something: not dropped.)
+	if comma, okc := refTypeOf(t, ","); okc {
+		closers := map[int64]bool{}
+		for _, lx := range []string{")", "]", "}"} {
+			if k, ok := refTypeOf(t, lx); ok {
+				closers[k] = true
+			}
+		}
+		single := func(e *gEvt, set map[int64]bool) bool {
+			if e.kind != gTok || len(e.types) != 1 {
+				return false
+			}
+			for k := range e.types {
+				return set[k]
+			}
+			return false
+		}
+		var kept []*gEvt
+		var keptIdx []int
+		for i, e := range pevs {
+			if i > 0 && i+1 < len(pevs) && e.checked && len(e.tokFields) == 0 && len(e.litFields) == 0 &&
+				single(e, map[int64]bool{comma: true}) && pevs[i-1].kind == gChild && single(pevs[i+1], closers) {
+				continue
+			}
+			kept = append(kept, e)
+			keptIdx = append(keptIdx, pidx[i])
+		}
+		if len(kept) == len(terms) && len(pevs) != len(terms) {
+			pevs, pidx = kept, keptIdx
+		}
+	}
 	mr.parserSeq = renderPath(t.tc, pevs)
 	mr.printerSeq = renderTerms(t, terms)
 	n := len(pevs)
